@@ -26,7 +26,7 @@
 (***************************************************************************)
 EXTENDS Integers, Sequences, FiniteSets, TLC, Json
 
-CONSTANTS W, N, ErrAt, Kind, DoneOnError, Shared, CapIn, CapOut
+CONSTANTS W, N, ErrAt, ErrAt2, Kind, DoneOnError, Shared, CapIn, CapOut
 
 ReaderId == 0
 Workers  == 1..W
@@ -40,7 +40,7 @@ variables inq = <<>>, inclosed = FALSE, outq = <<>>, outclosed = FALSE,
           collected = {}, sched = <<>>;
 
 define
-  IsErr(i) == i = ErrAt
+  IsErr(i) == i = ErrAt \/ (ErrAt2 # 0 /\ i = ErrAt2)   \* a second erroneous tree (0 = none)
 end define;
 
 process Reader = ReaderId
@@ -122,7 +122,7 @@ VARIABLES pc, inq, inclosed, outq, outclosed, wgcount, err, scratch,
           collected, sched
 
 (* define statement *)
-IsErr(i) == i = ErrAt
+IsErr(i) == i = ErrAt \/ (ErrAt2 # 0 /\ i = ErrAt2)   \* a second erroneous tree (0 = none)
 
 VARIABLES nexti, item, local, res
 
@@ -302,7 +302,8 @@ Termination == <>(\A self \in ProcSet: pc[self] = "Done")
 CONSTANT Emit
 
 CallerDone == pc[CallerId] = "Done"
-HasErr == ErrAt \in 1..N
+HasErr == ErrAt \in 1..N \/ ErrAt2 \in 1..N
+ErrItems == {ErrAt, ErrAt2} \cap (1..N)
 
 \* (i) the caller always gets to the end: no worker, closer or channel leaves it blocked
 CallerTerminates == <>CallerDone
@@ -312,11 +313,11 @@ ResultsSeq ==
   CallerDone =>
     IF Kind = "fbp"
     THEN ~HasErr => collected = {[id |-> i, res |-> F(i)] : i \in 1..N}
-    ELSE collected = {[id |-> i, res |-> IF i = ErrAt THEN -1 ELSE F(i)] : i \in 1..N}
+    ELSE collected = {[id |-> i, res |-> IF IsErr(i) THEN -1 ELSE F(i)] : i \in 1..N}
 
 \* (iii) an erroneous tree reaches the caller
 ErrorSurfaces ==
-  (CallerDone /\ HasErr) => IF Kind = "fbp" THEN err = ErrAt ELSE [id |-> ErrAt, res |-> -1] \in collected
+  (CallerDone /\ HasErr) => IF Kind = "fbp" THEN err \in ErrItems ELSE \A e \in ErrItems : [id |-> e, res |-> -1] \in collected
 
 \* the worker part of a complete behaviour = a schedule for the real goroutines
 EmitSchedule ==
